@@ -8,6 +8,11 @@ SMR_ASSUME = ("Oracle: harness bookkeeping of validated guards (protect/assign+r
               "established before the reclaiming API call began still holds the object; per-object disposer counters; memory really freed on disposal (ASan); "
               "promptness clause checked only for explicit scan() calls that ran without any token switch while no other thread was manipulating a guard.")
 
+RCU_ASSUME = ("Oracle: per-object snapshot of the read-side critical sections open when retire_ptr/batch_retire was called; a disposal while one of them is still open, a synchronize() "
+              "returning while a section open at its call is still open, or an object fetched inside a section found disposed before the outermost unlock is a violation; "
+              "per-object disposer counters after the singleton is destroyed. Signals of the signal-handling flavour are delivered by the scheduler at the target's next scheduling point. "
+              "Buffer capacities 2,3,4,8 with the default Vyukov buffer (capacity 1 is outside that buffer's precondition).")
+
 PROPS = {
     "C01": {
         "harnesses": [{"name": "smr", "variants": [0, 1], "quick": 480000, "thorough": 6000000, "fuzz_runs": 600000}],
@@ -20,6 +25,14 @@ PROPS = {
     "C03": {
         "harnesses": [{"name": "smr", "variants": [0, 1, 2], "quick": 480000, "thorough": 6000000, "fuzz_runs": 600000}],
         "assumptions": [SC, SMR_ASSUME],
+    },
+    "C04": {
+        "harnesses": [{"name": "rcu", "quick": 480000, "thorough": 6000000, "fuzz_runs": 600000}],
+        "assumptions": [SC, RCU_ASSUME],
+    },
+    "C05": {
+        "harnesses": [{"name": "rcu", "quick": 480000, "thorough": 6000000, "fuzz_runs": 600000}],
+        "assumptions": [SC, RCU_ASSUME],
     },
     "C06": {
         "harnesses": [
@@ -35,7 +48,22 @@ NOT_APPLICABLE = {("C%02d" % i): PENDING for i in range(1, 29)}
 _SCHED_NOTE = ("Trusted base: the token scheduler and pthread interposers in rt/vsched.cpp, the instrumented atomics header, the linearizability checker rt/lin.h (self-tested), "
                "ASan/UBSan, rapidcheck, libFuzzer. Assumes sequentially consistent interleavings at atomic-operation granularity; bounded threads/operations/pre-emptions.")
 
+_SMR_TEXT = ("Bounded exploration of generated client programs (protect/assign/copy/deref/release, swap+retire, bulk retire around the array capacity, explicit scan, detach/re-attach, "
+             "GuardArray, DHP guard-block extension) x generated schedules against harness bookkeeping of validated guards and per-object disposer accounting; held on every case explored.")
+_RCU_TEXT = ("Bounded exploration of generated reader/writer programs (nested read-side sections, retire_ptr, batch_retire, synchronize, bulk retire past the buffer capacity) x generated "
+             "schedules for all four flavours incl. the reclamation thread and simulated signal delivery; held on every case explored.")
+
 MANIFEST_TEXT = {
+    "C01": {"text": _SMR_TEXT + " Variants: HP in-place and classic scan, odd and even addresses.", "note": _SCHED_NOTE,
+            "technique": "schedule-controlled property-based testing (rapidcheck + libFuzzer) with a guard-bookkeeping / poisoning oracle"},
+    "C02": {"text": _SMR_TEXT + " Variant: DHP with small initial guard counts, extension blocks and multi-block retired lists.", "note": _SCHED_NOTE,
+            "technique": "schedule-controlled property-based testing (rapidcheck + libFuzzer) with a guard-bookkeeping / poisoning oracle"},
+    "C03": {"text": _SMR_TEXT + " Decides the exactly-once clause (per-object counters after singleton destruction, incl. objects of detached threads) and the promptness clause (explicit scan with no guard on the object).", "note": _SCHED_NOTE,
+            "technique": "schedule-controlled property-based testing (rapidcheck + libFuzzer) with per-object disposer accounting"},
+    "C04": {"text": _RCU_TEXT + " Decides the grace-period clause.", "note": _SCHED_NOTE,
+            "technique": "schedule-controlled property-based testing (rapidcheck + libFuzzer) with a reader-section interval oracle"},
+    "C05": {"text": _RCU_TEXT + " Decides exactly-once disposal by singleton destruction, incl. buffer-full paths.", "note": _SCHED_NOTE,
+            "technique": "schedule-controlled property-based testing (rapidcheck + libFuzzer) with per-object disposer accounting"},
     "C06": {
         "text": "Bounded exploration: generated (variant, program, schedule) cases for MSQueue/MoirQueue/BasketQueue/OptimisticQueue (container + intrusive, HP + DHP, item counter, seq_cst) each checked for linearizability against a sequential FIFO including the final drain; held on every case explored. Exploration is the right level because the property quantifies over all interleavings and no finite enumeration of them exists for the real code.",
         "note": _SCHED_NOTE,
